@@ -127,7 +127,7 @@ class C15(Prop):
                 if not (wf_ns(cns(ns)) and wf_key(k)):
                     continue
                 if op == "cacc":
-                    if r != "R ok|ok|val i:7|val i:7|val i:7":
+                    if r != "R ok|ok|val i:7|val i:7|val i:7|" + ab(ns, k):
                         out.append(viol("client-access", "Client(namespace=%r): register / write / read %r by attribute, "
                                         "get(absolute name), Blackboard.get -> %s" % (ns, k, r)))
                 elif op == "cshare":
